@@ -88,10 +88,16 @@ MUTANTS = [
     dict(id="remove-at-min-rejected", expect=[], silent=["C02", "C04"], edits=[(LW, "            if v_new < self.min_volume:", "            if v_new <= self.min_volume:")]),
     dict(id="distribute-n-minus-1", expect=["C01"], edits=[(BASE, "source.remove(source.wells[0, source_column], volume * n_dst, label=label)", "source.remove(source.wells[0, source_column], volume * (n_dst - 1), label=label)")]),
     dict(id="aspirate-emit-before-remove", expect=["C03"], edits=[(BASE, '''        labware.remove(wells, volumes, label)
-        self.comment(label)
-        for well, volume in zip(wells, volumes):
-            if volume > 0:
-                self.aspirate_well(labware.name, self._get_well_position(labware, well), volume, **kwargs)
+        n_records = len(self)
+        try:
+            self.comment(label)
+            for well, volume in zip(wells, volumes):
+                if volume > 0:
+                    self.aspirate_well(labware.name, self._get_well_position(labware, well), volume, **kwargs)
+        except Exception:
+            # a call whose parameters are rejected leaves no records behind
+            del self[n_records:]
+            raise
         return''', '''        self.comment(label)
         for well, volume in zip(wells, volumes):
             if volume > 0:
